@@ -234,6 +234,98 @@ theorem RowIds.mem_iff {es : List (Edge α)} (h : RowIds es) (e : Edge α) :
   · rintro ⟨hi, he⟩
     exact he ▸ List.getElem_mem hi
 
+/-! ### the loader's validation: missing vertices, ids against rows, decoding -/
+
+/-- every vertex id is the number of its row -/
+def VertexRowIds (vs : List (Vertex α)) : Prop := ∀ i (h : i < vs.length), (vs[i]'h).vertexId = i
+
+/-- what one row adds to `missing_vertices` when the tables have `n` entries -/
+def missingOf (n : Nat) (e : Edge α) : List Nat :=
+  (if e.src < n then [] else [e.src]) ++ (if e.dst < n then [] else [e.dst])
+
+theorem step_missing (st : EdgeLoad) (e : Edge α) :
+    (st.step e).missing =
+      st.missing ++ ((if e.src < st.adj.length then [] else [e.src]) ++
+        (if e.dst < st.rev.length then [] else [e.dst])) := by
+  unfold EdgeLoad.step
+  by_cases h1 : e.src < st.adj.length <;> by_cases h2 : e.dst < st.rev.length <;> simp [h1, h2]
+
+theorem step_adj_length (st : EdgeLoad) (e : Edge α) : (st.step e).adj.length = st.adj.length := by
+  rw [step_adj]; split <;> simp [length_modifyAt]
+
+theorem step_rev_length (st : EdgeLoad) (e : Edge α) : (st.step e).rev.length = st.rev.length := by
+  rw [step_rev]; split <;> simp [length_modifyAt]
+
+theorem foldl_step_missing (es : List (Edge α)) (st : EdgeLoad) (n : Nat)
+    (ha : st.adj.length = n) (hr : st.rev.length = n) :
+    (es.foldl EdgeLoad.step st).missing = st.missing ++ es.flatMap (missingOf n) := by
+  induction es generalizing st with
+  | nil => simp
+  | cons e es ih =>
+    rw [List.foldl_cons, ih (st.step e) (by rw [step_adj_length, ha]) (by rw [step_rev_length, hr]),
+      step_missing, ha, hr]
+    simp [missingOf, List.append_assoc]
+
+/-- the `missing_vertices` set is empty exactly when every endpoint is inside the table -/
+theorem missingVertices_eq_nil_iff (es : List (Edge α)) (nV : Nat) :
+    missingVertices es nV = [] ↔ EndpointsBelow es nV := by
+  unfold missingVertices loadEdges
+  rw [foldl_step_missing es (EdgeLoad.init nV) nV (by simp [EdgeLoad.init]) (by simp [EdgeLoad.init])]
+  simp only [EdgeLoad.init, List.nil_append, List.flatMap_eq_nil_iff, EndpointsBelow]
+  constructor
+  · intro h e he
+    have := h e he
+    simp only [missingOf, List.append_eq_nil_iff] at this
+    constructor
+    · by_contra hc; simp [hc] at this
+    · by_contra hc; simp [hc] at this
+  · intro h e he
+    simp [missingOf, (h e he).1, (h e he).2]
+
+theorem idsAreRowsFrom_iff (k : Nat) (l : List Nat) :
+    idsAreRowsFrom k l = true ↔ ∀ i (h : i < l.length), l[i]'h = k + i := by
+  induction l generalizing k with
+  | nil => simp [idsAreRowsFrom]
+  | cons x r ih =>
+    simp only [idsAreRowsFrom, Bool.and_eq_true, beq_iff_eq, ih]
+    constructor
+    · rintro ⟨hx, hr⟩ i hi
+      cases i with
+      | zero => simpa using hx
+      | succ j =>
+        have := hr j (by simpa using hi)
+        simp only [List.getElem_cons_succ]
+        omega
+    · intro h
+      refine ⟨by have := h 0 (by simp); simpa [List.getElem_cons_zero] using this, fun i hi => ?_⟩
+      have := h (i + 1) (by simpa using hi)
+      simp only [List.getElem_cons_succ] at this
+      omega
+
+theorem idsAreRows_edges_iff (es : List (Edge α)) : idsAreRows (es.map Edge.edgeId) = true ↔ RowIds es := by
+  simp only [idsAreRows, idsAreRowsFrom_iff, List.length_map, List.getElem_map, Nat.zero_add, RowIds]
+
+theorem idsAreRows_vertices_iff (vs : List (Vertex α)) :
+    idsAreRows (vs.map Vertex.vertexId) = true ↔ VertexRowIds vs := by
+  simp only [idsAreRows, idsAreRowsFrom_iff, List.length_map, List.getElem_map, Nat.zero_add, VertexRowIds]
+
+theorem decodeRows_eq_ok {ρ : Type} (rows : List (Row ρ)) (l : List ρ) (h : decodeRows rows = .ok l) :
+    rows = l.map Row.ok := by
+  induction rows generalizing l with
+  | nil => simp only [decodeRows, Except.ok.injEq] at h; subst h; rfl
+  | cons r rest ih =>
+    cases r with
+    | bad => simp [decodeRows] at h
+    | ok x =>
+      simp only [decodeRows] at h
+      cases hd : decodeRows rest with
+      | error e => rw [hd] at h; simp at h
+      | ok l' =>
+        rw [hd] at h
+        simp only [Except.ok.injEq] at h
+        subst h
+        simp [ih l' hd]
+
 end
 
 /-! ### a list partitioned by a key is a permutation of the list -/
